@@ -110,8 +110,10 @@ CHECKS = {
             'points from geom 1 to geom 2, pos is the midpoint of the two surface points; and mju_makeFrame builds an orthonormal frame whose '
             'first row is the normalised normal when the tangent is left undefined (as all primitive colliders do); sphere-capsule: the point of the capsule axis '
             'segment the collider uses is the nearest one to the sphere centre (quadratic along the unit axis, minimised by the clamped projection), the contact '
-            'is reported exactly when that distance is within reach and dist is the gap between the two surfaces; getMargin / getGap select the pair or geom values.',
-            'Trusted: VC generator, clang, z3/cvc5; doubles as reals, sqrt abstraction. Not covered (listed): capsule/cylinder/box colliders, '
+            'is reported exactly when that distance is within reach and dist is the gap between the two surfaces; plane-capsule (mjc_PlaneCapsule, on the model / data arrays): '
+            'one contact per end sphere within margin, upper end first, each with the plane-sphere distance, normal, midpoint position and the capsule axis as tangent; '
+            'getMargin / getGap select the pair or geom values.',
+            'Trusted: VC generator, clang, z3/cvc5; doubles as reals, sqrt abstraction. Not covered (listed): capsule-capsule and cylinder/box colliders, '
             'mj_geomDistance, GJK/EPA; mju_makeFrame with a supplied tangent.',
             'contracts + symbolic execution of the real bodies, z3/cvc5 NRA'),
     'C14': ('DESIGN.md section 4 / C14',
